@@ -1,5 +1,5 @@
 """C07 - nothing runs without verified identity and access approval (DESIGN.md section 3, C07)."""
-from .. import flow, guards, paths
+from .. import flow, guards, inline, paths
 from ..facts import callee_def, short
 from ..model import snake
 from ..report import AnchorMissing
@@ -18,6 +18,7 @@ def is_sig_check(t):
 
 def find_prepare(db):
     c = [b for b in db.grep("SignatureContext", "check") if b.crate == "s3s" and any(is_sig_check(t) for _, t in b.calls())]
+    c = inline.roots_with(db, c, lambda b: any(is_sig_check(t) for _, t in b.calls()))
     if len(c) != 1:
         raise AnchorMissing("expected one body calling SignatureContext::check, found %s" % [b.name for b in c])
     return c[0]
@@ -127,7 +128,8 @@ def rule_prepare(chk, db, roles):
 def rule_r2(chk, db, prep, abi, a_out):
     """who-may-write S3Extensions.credentials; identity shown to hook/backend == the verifier's"""
     writers = []
-    for b in db.grep("credentials"):
+    covered = {prep.name} | set(getattr(prep, "inlined_from", []))      # prepare is studied with its helpers inlined
+    for b in [prep] + [x for x in db.grep("credentials") if x.name not in covered]:
         if b.crate != "s3s":
             continue
         for bi, si, st in b.stmts():
@@ -197,8 +199,10 @@ def rule_r2(chk, db, prep, abi, a_out):
 
 def rule_r5(chk, db, roles):
     """ops::call: Operation::call only under Prepare::S3; route.call only after route.check_access succeeded"""
-    cands = [b for b in db.grep("s3s::ops::Operation::call") if b.crate == "s3s" and
-             any(t["callee"].get("trait") == roles.Operation and short(callee_def(t)) == "call" and t["callee"].get("virtual") for _, t in b.calls())]
+    def performs_call(b):
+        return any(t["callee"].get("trait") == roles.Operation and short(callee_def(t)) == "call" and t["callee"].get("virtual") for _, t in b.calls())
+    direct = [b for b in db.grep("s3s::ops::Operation::call") if b.crate == "s3s" and performs_call(b)]
+    cands = inline.roots_with(db, direct, performs_call)       # ops::call with its (sync / async) helpers inlined
     if len(cands) != 1:
         raise AnchorMissing("ops::call body not found")
     body = cands[0]
@@ -345,14 +349,14 @@ def rule_r7(chk, db, roles):
             ok = root.impl_trait == roles.Operation and short(root.name) == "call"
             chk.verdict(ok, "R7", "backend-call@" + root.name.replace("s3s::", "")[:80], b.loc(bi), "backend method %s is invoked outside an Operation::call body" % short(callee_def(t)), nontrivial=False)
         else:
-            ok = root.name == "s3s::ops::call" or root.name == "s3s::ops::prepare"
+            ok = inline.top_owners(db, b) <= {"s3s::ops::call", "s3s::ops::prepare"}
             chk.verdict(ok, "R7", "route-call@" + root.name.replace("s3s::", "")[:80] + "." + short(callee_def(t)), b.loc(bi), "S3Route::%s is invoked outside ops::call/prepare" % short(callee_def(t)), nontrivial=False)
     chk.floor("R7", n, 99, "virtual calls on dyn S3 / dyn S3Route")
     # Operation::call (virtual) only from ops::call; ops::call only from S3Service::call
     oc = db.calls_matching(lambda t: t["callee"].get("trait") == roles.Operation and short(callee_def(t)) == "call", "ops::Operation::call")
     for b, bi, t in oc:
         if b.crate == "s3s":
-            chk.verdict(db.root_of(b).name == "s3s::ops::call", "R7", "Operation::call@" + db.root_of(b).name.replace("s3s::", ""), b.loc(bi), "Operation::call is invoked outside ops::call", nontrivial=False)
+            chk.verdict(inline.top_owners(db, b) == {"s3s::ops::call"}, "R7", "Operation::call@" + db.root_of(b).name.replace("s3s::", ""), b.loc(bi), "Operation::call is invoked outside ops::call", nontrivial=False)
     for b, bi, t in db.callers_of("s3s::ops::call"):
         if b.crate == "s3s":
             chk.verdict("S3Service" in db.root_of(b).name, "R7", "ops::call@" + db.root_of(b).name.replace("s3s::", ""), b.loc(bi), "ops::call is invoked outside S3Service::call", nontrivial=False)
